@@ -18,8 +18,12 @@ SEVEN = ('datetime', 'pd_timestamp', 'pd_ns', 'np_us', 'dt2str')
 NS_FORMS = ('pd_ns', 'np_ns')
 STRING_FORMS = ('iso_str', 'yyyymmdd_str', 'monthname_str', 'numeric_str', 'dt2str')
 # form -> the amounts of time of day that can be written (spec/Dates.tla: Tls)
+# (strings: 2 = hour:minute, 10 + k = the seconds with k decimals - spec/Dates.tla: FracTls)
+NEW_TLS = (2, 11, 12, 13, 14, 15, 17, 18, 19)
+BASE_TLS = (0, 3, 4)
+NOISE_FORMS = ('yyyymmdd_frac', 'ordinal_frac')         # accepted by dt(), not pinned by the statement: only ever called BEFORE judged calls
 TLS = {'datetime': (0, 3, 4), 'pd_timestamp': (0, 3, 4), 'pd_ns': (0, 3, 4), 'np_us': (0, 3, 4), 'dt2str': (0, 3, 4),
-       'iso_str': (0, 3, 4), 'monthname_str': (0, 3, 4), 'numeric_str': (0, 3, 4), 'np_ns': (0, 3, 4), 'parts': (0, 3),
+       'iso_str': BASE_TLS + NEW_TLS, 'monthname_str': BASE_TLS + NEW_TLS, 'numeric_str': BASE_TLS + NEW_TLS, 'np_ns': (0, 3, 4), 'parts': (0, 3),
        'np_h': (1,), 'np_m': (2,), 'np_s': (3,), 'pd_s': (3,), 'np_ms': (5,),
        'date': (0,), 'np_D': (0,), 'yyyymmdd_int': (0,), 'yyyymmdd_str': (0,), 'ordinal_int': (0,)}
 FORMS = sorted(TLS)
@@ -31,17 +35,26 @@ MONTHNAME_V = [dict(order=o, sep=s, name=n, pad=p) for o, s, n, p in [
     ('dmy', '.', 'long', 1), ('dmy', ' ', 'upper', 0), ('dmy', ' ', 'lower', 1),
     ('mdy', ' ', 'long', 0), ('mdy', ', ', 'short', 1), ('mdy', '-', 'short', 0), ('mdy', '/', 'long', 1), ('mdy', '.', 'short', 0),
     ('ymd', ' ', 'long', 0), ('ymd', '-', 'short', 1)]]
-ISO_V = [{'sep': 'T'}, {'sep': ' '}]
+ISO_V = [{'sep': 'T'}, {'sep': ' '}, {'sep': 'T', 'dec': ','}]         # (ISO 8601 writes the decimal sign as '.' or ',')
 
 
 def variants(form, tl):
+    """the renderings of a spelling class (their number is MC_DatesSess!NV)"""
     if form == 'numeric_str':
         return NUMERIC_V
     if form == 'monthname_str':
         return MONTHNAME_V
     if form == 'iso_str' and tl:
-        return ISO_V
+        return ISO_V if tl == 4 or tl > 10 else ISO_V[:2]
     return [{}]
+
+
+def some_variants(form, tl, salt):
+    """single-call families: the spelling classes added in round 4 take two of their renderings, in turn"""
+    vs = variants(form, tl)
+    if tl not in NEW_TLS or len(vs) <= 2:
+        return vs
+    return [vs[(salt + tl) % len(vs)], vs[(salt + tl + 3) % len(vs)]]
 
 
 def vname(v):
@@ -50,11 +63,15 @@ def vname(v):
 
 # ---------------------------------------------------------------------------------------------
 # rendering
-def _hms(g):
+def _hms(g, dec='.'):
     if not g:
         return ''
+    if len(g) == 2:
+        return '%02d:%02d' % tuple(g)
     s = '%02d:%02d:%02d' % tuple(g[:3])
-    return s + ('.%06d' % g[3] if len(g) == 4 else '')
+    if len(g) == 5:                           # the integer g[3] written with g[4] decimals
+        return s + dec + '%0*d' % (g[4], g[3])
+    return s + (dec + '%06d' % g[3] if len(g) == 4 else '')
 
 
 def _monthname(m, style):
@@ -73,6 +90,8 @@ def render(form, f, v):
         return tuple(f)
     if form in ('yyyymmdd_int', 'ordinal_int'):
         return (int(f[0]),)
+    if form in NOISE_FORMS:                   # a whole number plus num/den of a day, den a power of two: an exact float
+        return (float(f[0]) + f[1] / f[2],)
     if form.startswith('np_'):
         unit = form[3:]
         s = '%04d-%02d-%02d' % tuple(f[:3])
@@ -91,7 +110,7 @@ def render(form, f, v):
     if form == 'pd_s':
         return (pd.Timestamp(year=f[0], month=f[1], day=f[2], hour=f[3], minute=f[4], second=f[5]).as_unit('s'),)
     if form == 'iso_str':
-        return ('%04d-%02d-%02d' % tuple(f[:3]) + (v.get('sep', 'T') + _hms(f[3:]) if len(f) > 3 else ''),)
+        return ('%04d-%02d-%02d' % tuple(f[:3]) + (v.get('sep', 'T') + _hms(f[3:], v.get('dec', '.')) if len(f) > 3 else ''),)
     if form == 'yyyymmdd_str':
         return ('%08d' % f[0],)
     if form == 'numeric_str':
@@ -145,12 +164,17 @@ def observe(op, form, f, dl, v):
 # first spelling of every packed line is sent along so that TLC can reject a disagreement as bad_input)
 def trunc(t, tl):
     h, mi, s, us = t
+    if tl > 10:
+        return (h, mi, s, us - us % 10 ** (16 - tl)) if tl < 16 else (h, mi, s, us)
     return {0: (0, 0, 0, 0), 1: (h, 0, 0, 0), 2: (h, mi, 0, 0), 3: (h, mi, s, 0), 4: (h, mi, s, us), 5: (h, mi, s, us - us % 1000)}[tl]
 
 
 def spell(form, y, m, d, t, wr, tl, ord1):
     w = trunc(t, tl)
-    tail = {0: [], 3: list(w[:3]), 4: list(w)}.get(tl)
+    if tl > 10:
+        tail = list(w[:3]) + [w[3] // 10 ** (16 - tl) if tl <= 16 else w[3] * 10 ** (tl - 16), tl - 10]
+    else:
+        tail = {0: [], 2: list(w[:2]), 3: list(w[:3]), 4: list(w)}.get(tl)
     if form in SEVEN:
         return [y, m, d] + list(w)
     if form in ('date', 'np_D'):
@@ -202,6 +226,8 @@ class Findings(object):
     def add(self, clause, op, form, dl, wr, tl, v, f, args, want, got, where=None):
         kind = 'raised' if got[0] == 'exc' else ('wrong_value' if got[0] == 'ok' else 'not_a_datetime')
         case = {'op': op, 'form': form, 'dialect': dl, 'wr': wr, 'kind': kind}
+        if where and where.get('after'):          # the call was made after another one: the class of the history
+            case['after'] = where['after']
         opt = dict(v, tl=tl)
         key = json.dumps([clause, case], sort_keys=True)
         e = self.by.get(key)
@@ -228,7 +254,7 @@ def _s2c_day(rec):
     bad, n, nontrivial = [], 0, 0
     for c in rec['cases']:
         form, f, dl = c['form'], c['f'], c['dl']
-        for i, v in enumerate(variants(form, c['tl'])):
+        for i, v in enumerate(some_variants(form, c['tl'], rec['d'])):
             for op in (('dt', 'ymd') if i == 0 else ('dt',)):
                 got, args = observe(op, form, f, dl, v)
                 n += 1
@@ -274,6 +300,180 @@ def s2c(ctx, pool, cfg, ovf_cfg, findings):
 
 
 # ---------------------------------------------------------------------------------------------
+# sessions: histories of calls in ONE process image.  Every history starts in a process in which dt() has never been
+# called (a forked copy of a parent that has only imported pyg_base), as the session machine of MC_DatesSess starts with
+# an empty history; the histories that share such a process are on different calendar days.
+def _fresh(fn, payload):
+    r, w = os.pipe()
+    pid = os.fork()
+    if pid == 0:
+        code = 1
+        try:
+            os.close(r)
+            try:
+                out = json.dumps(['ok', fn(payload)])
+            except BaseException as e:
+                out = json.dumps(['err', repr(e)[:600]])
+            with os.fdopen(w, 'w') as f:
+                f.write(out)
+            code = 0
+        finally:
+            os._exit(code)
+    os.close(w)
+    with os.fdopen(r) as f:
+        data = f.read()
+    os.waitpid(pid, 0)
+    try:
+        kind, res = json.loads(data)
+    except ValueError:
+        raise Machinery('a session process died without an answer')
+    if kind != 'ok':
+        raise Machinery('a session process failed: %s' % res)
+    return res
+
+
+def _play(calls):
+    """the calls of one history, one after the other; equal arguments are the SAME object (rendered once)"""
+    made, outs = {}, []
+    for c in calls:
+        v = c['v']
+        key = json.dumps([c['form'], c['f'], v], sort_keys=True)
+        if key not in made:
+            try:
+                made[key] = render(c['form'], c['f'], v)
+            except Exception as e:
+                raise Machinery('cannot render %s %r %r: %r' % (c['form'], c['f'], v, e))
+        outs.append((call(c['op'], made[key], c['dl']), repr(made[key])[:120]))
+    return outs
+
+
+def _show(calls, outs):
+    return ['%s(%s%s) -> %s' % (c['op'], a[1:-1].rstrip(','), '' if c['dl'] == 'uk' else ", dialect='us'", json.dumps(o))
+            for c, (o, a) in zip(calls, outs)]
+
+
+def _sess_slot(sessions):
+    bad, n = [], 0
+    for s in sessions:
+        calls = [dict(c, v=variants(c['form'], c['tl'])[c['v']] if c['form'] not in NOISE_FORMS else {}) for c in s['calls']]
+        outs = _play(calls)
+        n += len(outs)
+        for i, (c, (got, arg)) in enumerate(zip(calls, outs)):
+            if c['want'] == ['undefined']:
+                raise Machinery('the session generator left the domain: %s' % json.dumps(s)[:300])
+            if c['want'] != ['unpinned'] and got != c['want']:
+                bad.append([c['cl'], c['op'], c['form'], c['dl'], c['wr'], c['tl'], c['v'], c['f'], arg, c['want'], got,
+                            {'after': c['cls'], 'call': i + 1, 'history': _show(calls, outs), 'y': s['y'], 'm': s['m'], 'd': s['d']}])
+    return bad, n
+
+
+def _sess_slot_job(sessions):
+    return _fresh(_sess_slot, sessions)
+
+
+def s2c_sessions(ctx, pool, cfg, findings, **kw):
+    recs = ctx.generate('MC_DatesSess', cfg, **kw)
+    by_day = {}
+    for r in recs:
+        by_day.setdefault((r['y'], r['m'], r['d']), []).append(r)
+    slots = {}
+    for day in sorted(by_day):          # slot j = the j-th history of every day: no two histories of a process share a day
+        for j, r in enumerate(sorted(by_day[day], key=lambda r: json.dumps(r['calls'], sort_keys=True))):
+            slots.setdefault(j, []).append(r)
+    for bad, n in pool.map(_sess_slot_job, [slots[j] for j in sorted(slots)], 1):
+        ctx.evals += n
+        for b in bad:
+            findings.add(*b[:11], where=b[11])
+    ctx.traces += len(recs)
+    for r in recs:
+        ctx.note(('sess', r['y'], r['m'], r['d']) + tuple((c['cls'], c['op'], c['form'], c['tl'], c['wr'], c['dl']) for c in r['calls']))
+    ctx.extra['s2c_sessions'] = ctx.extra.get('s2c_sessions', 0) + len(recs)
+    ctx.extra['s2c_session_processes'] = ctx.extra.get('s2c_session_processes', 0) + len(slots)
+    ctx.sample({'s2c_session': recs[len(recs) // 2]})
+
+
+def _rand_call(rng, y, m, d, ord1, op=None):
+    form = rng.choice(FORMS + ['numeric_str'] * 6 + ['monthname_str'] * 2 + ['iso_str'] * 3 + ['yyyymmdd_int', 'yyyymmdd_str', 'dt2str'])
+    if form in NS_FORMS and y > 2261:
+        form = 'np_us'
+    tl = rng.choice(TLS[form] if len(TLS[form]) <= 3 or rng.random() < 0.35 else BASE_TLS)
+    wr = rng.choice(['dmy', 'mdy']) if form == 'numeric_str' else '-'
+    return dict(op=op or rng.choice(['dt', 'dt', 'ymd']), form=form, tl=tl, wr=wr, dl=rng.choice(['uk', 'us']), how='fresh',
+                v=rng.choice(variants(form, tl)), f=spell(form, y, m, d, rand_tod(rng), wr, tl, ord1))
+
+
+def _rand_session(rng, months):
+    """2..5 calls on one random day; about half of them collide with the call before (the same spelling in the other
+    dialect / through the other entry point / in another rendering / with another time of day), some follow a number
+    with a fraction of a day"""
+    y = rng.randrange(1900, 2300)
+    m = rng.randrange(1, 13)
+    dim, ord1 = months[(y, m)]
+    d = rng.choice([1, 9, 10, 12, 13, dim, rng.randrange(1, dim + 1), rng.randrange(1, dim + 1)])
+    calls = []
+    for i in range(rng.choice([2, 2, 3, 3, 4, 5])):
+        r = rng.random()
+        prev = calls[-1] if calls else None
+        if prev is not None and prev['form'] in NOISE_FORMS:
+            c = _rand_call(rng, y, m, d, ord1)
+            c.update(form='yyyymmdd_int' if prev['form'] == 'yyyymmdd_frac' else 'ordinal_int', tl=0, wr='-', v={}, how='int_part')
+            c['f'] = spell(c['form'], y, m, d, [0, 0, 0, 0], '-', 0, ord1)
+        elif prev is not None and r < 0.5:
+            c = dict(prev)
+            how = rng.choice(['dl', 'op', 'v', 't', 'dl+v', 'dl+t'])
+            if 'dl' in how:
+                c['dl'] = 'us' if prev['dl'] == 'uk' else 'uk'
+            if how == 'op':
+                c['op'] = 'ymd' if prev['op'] == 'dt' else 'dt'
+            if 't' in how:
+                c['tl'] = rng.choice(TLS[c['form']])
+                c['f'] = spell(c['form'], y, m, d, rand_tod(rng), c['wr'], c['tl'], ord1)
+            if 'v' in how or 't' in how:
+                c['v'] = rng.choice(variants(c['form'], c['tl']))
+            c['how'] = how
+        elif r < 0.6 and i < 4:
+            form = rng.choice(NOISE_FORMS)
+            n = spell('yyyymmdd_int' if form == 'yyyymmdd_frac' else 'ordinal_int', y, m, d, [0, 0, 0, 0], '-', 0, ord1)[0]
+            c = dict(op='dt', form=form, tl=0, wr='-', dl=rng.choice(['uk', 'us']), v={}, f=[n, rng.choice([1, 2, 3]), 4], how='noise')
+        else:
+            c = _rand_call(rng, y, m, d, ord1)
+        calls.append(c)
+    if calls[-1]['form'] in NOISE_FORMS:      # a noise call is only ever followed by a judged one
+        c = _rand_call(rng, y, m, d, ord1)
+        c.update(form='yyyymmdd_int' if calls[-1]['form'] == 'yyyymmdd_frac' else 'ordinal_int', tl=0, wr='-', v={}, how='int_part')
+        c['f'] = spell(c['form'], y, m, d, [0, 0, 0, 0], '-', 0, ord1)
+        calls.append(c)
+    return calls
+
+
+def _sess_record(batch):
+    out = []
+    for calls in batch:
+        outs = _play(calls)
+        out.append({'k': 'sess', 'calls': [dict(op=c['op'], form=c['form'], f=c['f'], dl=c['dl'], wr=c['wr'], tl=c['tl'], out=o)
+                                           for c, (o, a) in zip(calls, outs)],
+                    'vs': [c['v'] for c in calls], 'arg': _show(calls, outs), 'hows': [c['how'] for c in calls]})
+    return out
+
+
+def _sess_record_job(batch):
+    return _fresh(_sess_record, batch)
+
+
+def c2s_sessions(ctx, pool, months):
+    """random histories recorded from the code (judged later by Trace_Dt, call by call, with Dates!Expected)"""
+    n = 2000 if ctx.quick else 40000
+    sessions = [_rand_session(ctx.rng, months) for _ in range(n)]
+    lines = [o for part in pool.map(_sess_record_job, [sessions[i:i + 20] for i in range(0, n, 20)], 1) for o in part]
+    ctx.evals += sum(len(o['calls']) for o in lines)
+    for o in lines:
+        ctx.note(('c2s-sess',) + tuple(o['arg']))
+    ctx.extra['c2s_sessions'] = len(lines)
+    ctx.sample({'c2s_session': {'history': lines[3]['arg'], 'hows': lines[3]['hows']}})
+    return lines
+
+
+# ---------------------------------------------------------------------------------------------
 # C2S, packed: one line per (year, spelling class, outcome pattern)
 def _pack(outs, with_month):
     """outs: [(m, d, out)] in calendar order -> runs of consecutive days with the same relative outcome"""
@@ -302,10 +502,17 @@ def plan(y, ops=('dt', 'ymd')):
                         out.append(('dt', form, TLS[form][(i + y) % 3], wr, dl, v))
                 else:
                     for tl in TLS[form]:
+                        if tl in NEW_TLS and form in STRING_FORMS:
+                            continue
                         for v in variants(form, tl):
                             out.append(('dt', form, tl, wr, dl, v))
+                if form in STRING_FORMS and len(TLS[form]) > 3:      # hour:minute / k decimals of the seconds: two per year, in turn
+                    for j in (0, 4):
+                        tl = NEW_TLS[(y + j) % len(NEW_TLS)]
+                        vs = variants(form, tl)
+                        out.append(('dt', form, tl, wr, dl, vs[(y + 3 * j) % len(vs)]))
                 # ymd: every form, the longest time of day it can carry, one rendering in turn
-                tl = TLS[form][-1] if form != 'monthname_str' else (3, 4)[y % 2]
+                tl = [t for t in TLS[form] if t not in NEW_TLS or form not in STRING_FORMS][-1] if form != 'monthname_str' else (3, 4)[y % 2]
                 vs = variants(form, tl)
                 out.append(('ymd', form, tl, wr, dl, vs[y % len(vs)]))
     return [p for p in out if p[0] in ops]
@@ -359,7 +566,7 @@ def _single(rng, months):
     form = rng.choice(FORMS + ['numeric_str'] * 6 + ['monthname_str'] * 3 + ['iso_str', 'dt2str'])
     if form in NS_FORMS and y > 2261:
         form = 'np_us'
-    tl = rng.choice(TLS[form])
+    tl = rng.choice(TLS[form] if len(TLS[form]) <= 3 or rng.random() < 0.35 else BASE_TLS)
     wr = rng.choice(['dmy', 'mdy']) if form == 'numeric_str' else '-'
     v = rng.choice(variants(form, tl))
     return dict(k='one', op=rng.choice(['dt', 'dt', 'ymd']), form=form, f=spell(form, y, m, d, rand_tod(rng), wr, tl, ord1),
@@ -376,7 +583,7 @@ def _single_job(obs):
 def _canaries(obs):
     """two deliberately corrupted copies of recorded observations: the trace specification must reject them"""
     out = []
-    for want in ('one', 'yr', 'ovf'):
+    for want in ('one', 'yr', 'ovf', 'sess'):
         for o in obs:
             if o['k'] != want:
                 continue
@@ -387,6 +594,8 @@ def _canaries(obs):
                 c['runs'][-1][4] += 1
             elif want == 'ovf' and c['runs'][-1][2] == 'ok':
                 c['runs'][-1][5] += 1
+            elif want == 'sess' and c['calls'][-1]['out'][0] == 'ok':
+                c['calls'][-1]['out'][1] += 1
             else:
                 continue
             out.append(c)
@@ -407,7 +616,7 @@ def validate(ctx, obs, findings, months):
         parts.append(cur)
     for part in parts:
         can = _canaries(part)
-        lines = [{k: v for k, v in o.items() if k not in ('v', 'arg', 'vs')} for o in part + can]
+        lines = [{k: v for k, v in o.items() if k not in ('v', 'arg', 'vs', 'hows')} for o in part + can]
         bad = ctx.validate('Trace_Dt', lines)
         hit = {i for i, _ in bad}
         for j in range(len(can)):
@@ -422,6 +631,11 @@ def validate(ctx, obs, findings, months):
                 raise Machinery('the driver left the domain of the specification (%s): %s' % (clause, json.dumps(o)[:400]))
             if o['k'] == 'one':
                 findings.add(name, o['op'], o['form'], o['dl'], o['wr'], o['tl'], o['v'], o['f'], o['arg'], 'see Dates!Expected', o['out'])
+            elif o['k'] == 'sess':
+                i = int(where.split(':')[0])
+                c = o['calls'][i - 1]
+                findings.add(name, c['op'], c['form'], c['dl'], c['wr'], c['tl'], o['vs'][i - 1], c['f'], o['arg'][i - 1], 'see Dates!Expected', c['out'],
+                             where={'after': 'first' if i == 1 else o['hows'][i - 1], 'call': i, 'history': o['arg']})
             elif o['k'] == 'yr':
                 m, d = [int(x) for x in where.split(':')]
                 run = [r for r in o['runs'] if r[0] == m and r[1] <= d <= r[2]][0]
@@ -441,7 +655,7 @@ def validate(ctx, obs, findings, months):
                 findings.add(name, o['op'], 'parts', 'uk', '-', 0, {}, [o['y'], o['m'], d], (o['y'], o['m'], d), 'see Dates!YMDOverflow', got)
 
 
-def c2s(ctx, pool, months, findings):
+def c2s(ctx, pool, months, findings, sess_lines=()):
     full = [1900, 1999, 2000, 2001, 2096, 2097, 2098, 2099, 2100, 2299] if ctx.quick else list(range(1900, 2300))
     jobs = []
     for y in full:
@@ -482,7 +696,7 @@ def c2s(ctx, pool, months, findings):
             ctx.note(('ovf', o['op'], o['y'], o['m']))
     ctx.extra['c2s_overflow_calls'] = sum(o['n'] for o in ovf)
     ctx.sample({'c2s_overflow_line': ovf[len(ovf) // 2]})
-    validate(ctx, obs + singles, findings, months)
+    validate(ctx, obs + singles + list(sess_lines), findings, months)
     validate(ctx, ovf, findings, months)
 
 
@@ -497,16 +711,24 @@ def run(ctx):
     ctx.mc('MC_Dates', 'MC_Dates_quick.cfg' if ctx.quick else 'MC_Dates_thorough.cfg')
     # the mechanism model of today's uk2dt/us2dt is expected to break the law (see the findings below)
     ctx.mc('MC_Dates', 'MC_Dates_mechtoday.cfg', must_fail='MechTodayIsLaw', coverage=False)
+    # the session machine: the generated histories expose a memo on every key class of the catalogue, on every day
+    ctx.mc('MC_DatesSess', 'MC_DatesSess_quick.cfg' if ctx.quick else 'MC_DatesSess_thorough.cfg')
     months = {(r['y'], r['m']): (r['dim'], r['ord1']) for r in ctx.generate('MC_Dates', 'MC_Dates_genmonths.cfg')}
     if len(months) != 4800:
         raise Machinery('the calendar printed by TLC has %d months' % len(months))
     findings = Findings()
     nproc = int(os.environ.get('VERIF_PY_WORKERS', min(16, os.cpu_count() or 1)))
+    import pyg_base                      # imported (nothing called) before the workers are forked: the session processes are copies of this state
     with mp.get_context('fork').Pool(nproc) as pool:
+        # histories first: until they are done no worker has called dt() itself, it only forks the session processes
+        s2c_sessions(ctx, pool, 'MC_DatesSess_gen1.cfg' if ctx.quick else 'MC_DatesSess_gen2.cfg', findings)
+        if not ctx.quick:               # TLC-simulated longer sessions through the same machine
+            s2c_sessions(ctx, pool, 'MC_DatesSess_sim.cfg', findings, simulate=30000, depth=6, seed=ctx.seed + 1)
+        sess_lines = c2s_sessions(ctx, pool, months)
         s2c(ctx, pool, 'MC_Dates_gen1.cfg', 'MC_Dates_genovf1.cfg', findings)
         if not ctx.quick:
             s2c(ctx, pool, 'MC_Dates_gen2.cfg', 'MC_Dates_genovf2.cfg', findings)
-        c2s(ctx, pool, months, findings)
+        c2s(ctx, pool, months, findings, sess_lines)
     findings.report(ctx)
     ctx.exhaustive = False
     ctx.assumptions += [
